@@ -66,7 +66,7 @@ func readLQ(jobDir string) ([]lqRow, error) {
 func execCrash(input string) Result {
 	dir, err := os.MkdirTemp("", "zv-crash-")
 	if err != nil {
-		return Result{Term: "CC [] [] [] [] [] [] [] [] [] false false false 0 0", Tags: []string{"mktemp-failed"}}
+		return Result{Term: "CC [] [] [] [] [] [] [] [] [] false false false 0 0 0", Tags: []string{"mktemp-failed"}}
 	}
 	if os.Getenv("ZV_KEEP") == "" {
 		defer os.RemoveAll(dir)
@@ -108,6 +108,7 @@ func execCrash(input string) Result {
 	// run 1 events: claimed / deleted ids, seeds that were pre-processed (their URL entered the seen-store),
 	// captures acknowledged by the WARC writer (arch.written) per seed
 	var claimed, deleted1, preprocessed, finished1 []string
+	badFinish := 0
 	seenPre := map[string]bool{}
 	written := map[string][]string{} // seed id -> URLs
 	killed := false
@@ -128,6 +129,10 @@ func execCrash(input string) Result {
 		case "fin.finished":
 			if i, ok := sid[e.fields[0]]; ok {
 				finished1 = append(finished1, strconv.Itoa(i))
+			}
+			if len(e.fields) >= 2 && snapHasPending(e.fields[1]) {
+				badFinish++
+				note(fmt.Sprintf("crash case [%s]: seed %s reported finished with a node still awaiting fetching or post-processing", input, e.fields[0]))
 			}
 		case "pre.done":
 			if i, ok := sid[e.fields[0]]; ok && !seenPre[e.fields[0]] {
@@ -187,6 +192,11 @@ func execCrash(input string) Result {
 			}
 		}
 	}
+	for _, e := range evs2 {
+		if e.kind == "fin.finished" && len(e.fields) >= 2 && snapHasPending(e.fields[1]) {
+			badFinish++
+		}
+	}
 	for _, r := range rowsAfter2 {
 		if i, ok := sid[r.id]; ok {
 			left2 = append(left2, strconv.Itoa(i))
@@ -194,9 +204,9 @@ func execCrash(input string) Result {
 	}
 	sort.Strings(left2)
 	complete2 := res2 != nil && res2.StopReturned && !res2.TimedOut && status2 == ""
-	term := fmt.Sprintf("CC %s %s %s %s %s %s %s %s %s %s %s %s %d %d", coqList(all), coqList(claimed), coqList(finished1), coqList(deleted1), coqList(preprocessed),
+	term := fmt.Sprintf("CC %s %s %s %s %s %s %s %s %s %s %s %s %d %d %d", coqList(all), coqList(claimed), coqList(finished1), coqList(deleted1), coqList(preprocessed),
 		coqList(fresh1), coqList(claimed1), coqList(fetched2), coqList(left2), coqBool(complete2), coqBool(sp.StopAt == nil), coqBool(sp.KillAt != nil),
-		missing, scan1.MidFileDefects)
+		missing, scan1.MidFileDefects, badFinish)
 	mode := "kill"
 	point := "time"
 	switch {
@@ -255,4 +265,15 @@ func init() {
 		Exec:     execCrash,
 		Parallel: 6,
 	})
+}
+
+// snapHasPending: does a tree snapshot (pipechild's snapLine) contain a node that is Fresh, PreProcessed or Archived?
+func snapHasPending(line string) bool {
+	for _, part := range strings.Split(line, "|") {
+		f := strings.Split(part, ",")
+		if len(f) == 6 && (f[1] == "0" || f[1] == "1" || f[1] == "2") {
+			return true
+		}
+	}
+	return false
 }
